@@ -86,7 +86,10 @@ PROPS = {
         "mc": L0_QUICK + L0_THOROUGH + [
             algo("Monty.tla", "Monty_q.cfg", workers=8), algo("Monty.tla", "Monty_cal_drop_cx.cfg", expect="violation"),
             algo("Monty.tla", "Monty_cal_skip_sub.cfg", expect="violation"), algo("Monty.tla", "Monty_cal_rest_from_one.cfg", expect="violation"),
-            algo("Monty.tla", "Monty_t.cfg", workers=14, heap="10g", tiers=T)],
+            algo("Monty.tla", "Monty_t.cfg", workers=14, heap="10g", tiers=T),
+            algo("ModInv.tla", "ModInv_q.cfg", workers=4), algo("ModInv.tla", "ModInv_cal_skip_reduce_short.cfg", expect="violation"),
+            algo("ModInv.tla", "ModInv_cal_le_instead_of_lt.cfg", expect="violation"), algo("ModInv.tla", "ModInv_cal_reflect_zero.cfg", expect="violation"),
+            algo("ModInv.tla", "ModInv_t.cfg", workers=14, heap="8g", tiers=T)],
         "drivers": [drv("modpow", "debug"), drv("modpow", "release", tiers=T)],
     },
     "C08": {
@@ -241,7 +244,7 @@ MANIFEST_TEXT = {
               "replayed on the code with a canonical-form test after every step. A cross-family driver applies every structured operand shape to every binary operation."),
     "C05": _t("Recorded modpow/modinv calls (odd and even moduli, top digit 1 / 2^63 / all ones, bases shorter/equal/longer/multiples of the modulus, "
               "zero windows, multi-digit exponents, all signs, +-1, zero modulus, negative exponent) are validated by TLC: every modular reduction "
-              "is re-checked from a quotient witness; Monty/plain_modpow transcription model-checked on 35 k triples with three calibration mutants. NumMachine (the library as a register machine over TLC integers) supplies behaviours to execute on the code: random walks from TLC simulation and every single step from every small register file (exhaustive), compared register by register after each step."),
+              "is re-checked from a quotient witness; Monty/plain_modpow transcription model-checked on 35 k triples with three calibration mutants; the modinv loop (unsigned extended Euclid, lifted first iteration, sign reflection of the BigInt wrapper) is a TLA+ state machine checked for every a <= 70, m <= 60 and sign pair: no unsigned underflow, coefficients reduced, Bezout relation, answer, termination, three calibration mutants. NumMachine (the library as a register machine over TLC integers) supplies behaviours to execute on the code: random walks from TLC simulation and every single step from every small register file (exhaustive), compared register by register after each step."),
     "C06": _t("Recorded to_str_radix / formatter / to_radix / parse / from_radix calls (all radices 2..36 and 2..256, 63/64/65/130 digits, powers of "
               "the radix, up to 140 leading zeros, the parser language over a small alphabet exhaustively to length 3, formatter flag matrix) are "
               "validated by TLC against Text.tla (unique digit string, accepted language, core::fmt padding); Radix transcription model-checked. NumMachine (the library as a register machine over TLC integers) supplies behaviours to execute on the code: random walks from TLC simulation and every single step from every small register file (exhaustive), compared register by register after each step."),
